@@ -566,13 +566,18 @@ func TestDecElectionID(c *fluent.GRIBIClient, t testing.TB, _ ...TestOpt) {
 			AsResult(),
 	)
 
+	// Only results received from here on answer the decremented ID - the response
+	// to the initial announcement carries the same (highest) ID and must not be
+	// allowed to satisfy the check below.
+	seen := len(c.Results(t))
+
 	c.Modify().UpdateElectionID(t, electionID.Load()-1, 0)
 
 	if err := awaitTimeout(context.Background(), c, t, time.Minute); err != nil {
 		t.Fatalf("could not send update with current ID via client, got err: %v", err)
 	}
 
-	chk.HasResult(t, c.Results(t),
+	chk.HasResult(t, c.Results(t)[seen:],
 		fluent.
 			OperationResult().
 			WithCurrentServerElectionID(electionID.Load(), 0).
